@@ -755,7 +755,9 @@ class JSONVisitor:
             expected_children_str = (
                 next(iter(expected_children_names))
                 if len(expected_children_names) == 1
-                else str(expected_children_names)
+                else "{"
+                + ", ".join(repr(name) for name in sorted(expected_children_names))
+                + "}"
             )
             self.diagnostics.append(
                 InvalidChild(
@@ -1755,7 +1757,7 @@ def _validate_io_code_block_children(node: n.Directive) -> List[Diagnostic]:
 
     # handle missing nested input and/or output directives
     if len(expected_children) != 0 or len(new_children) != 2:
-        for expected_child in expected_children:
+        for expected_child in sorted(expected_children):
             diagnostics.append(MissingChild("io-code-block", expected_child, line))
             if expected_child == "input":
                 new_children = []
